@@ -31,6 +31,26 @@ def rust_str(s):
     return out + '"'
 
 
+DEFAULT_NAMES = {"as_str": "as_str", "from_str": "from_str", "into": "into", "MIN": "MIN", "MAX": "MAX", "next": "next",
+                 "next_back": "next_back", "try_from": "try_from", "iter": "iter", "names": "names", "range": "range"}
+
+
+def parse_features(feats):
+    """['as_str(mode="table", name="x")', 'MIN'] -> {'as_str': {'mode': 'table', 'name': 'x'}, 'MIN': {}}"""
+    import re
+    out = {}
+    for f in feats:
+        m = re.match(r"^\s*(\w+)\s*(?:\((.*)\))?\s*$", f, re.S)
+        if not m:
+            continue
+        params = {}
+        if m.group(2):
+            for pm in re.finditer(r'(\w+)\s*(?:=\s*"((?:[^"\\]|\\.)*)")?', m.group(2)):
+                params[pm.group(1)] = pm.group(2) if pm.group(2) is not None else True
+        out[m.group(1)] = params
+    return out
+
+
 class Variant:
     def __init__(self, ident, disc, spelling=None, rename=None, attrs=()):
         self.ident = ident          # identifier
@@ -58,6 +78,16 @@ class EnumSpec:
         self.enum_attrs = tuple(enum_attrs)
         self.split = split           # one #[enum_tools] attribute per feature
         self.context = context       # extra items placed in the module before the enum
+
+    @property
+    def cfg(self):
+        return parse_features(self.features)
+
+    def item_name(self, feat):
+        c = self.cfg.get(feat)
+        if c is None:
+            return None
+        return c.get("name") or DEFAULT_NAMES[feat]
 
     # ---- oracle ---------------------------------------------------------------------------
     def sorted_variants(self):
@@ -198,4 +228,140 @@ def t_cells(reprs=None):
                 vs = mk_variants(ds, order="sorted" if which == "a" else "reversed", renames=ren, implicit_ok=False)
                 out.append(EnumSpec("t_%s_%s_%s" % (r, cell, which), r, vs, list(feats), ident="En" if which == "a" else "Other",
                                     tags={"T", cell, shape, which}))
+    return out
+
+
+# ---------------------------------------------------------------------------------------------
+# layer-I corpus: designed partition + seeded random entries
+# ---------------------------------------------------------------------------------------------
+CFG = {
+    "ALL_TABLE": ['as_str(mode="table")', 'from_str(mode="table")', 'FromStr(mode="table")', "Debug", "Display", "IntoStr",
+                  "into", "Into", "try_from", "TryFrom", "MIN", "MAX", "next", "next_back", 'iter(mode="next_and_back")',
+                  "range", "names"],
+    "ALL_MATCH": ['as_str(mode="match")', 'from_str(mode="match")', 'FromStr(mode="match")', "Debug", "Display", "IntoStr",
+                  "into", "Into", "try_from", "TryFrom", "MIN", "MAX", "next", "next_back", 'iter(mode="table")',
+                  "range", "names"],
+    "ALL_AUTO": ["as_str", "from_str", "FromStr", "Debug", "Display", "IntoStr", "into", "Into", "try_from", "TryFrom",
+                 "MIN", "MAX", "next", "next_back", "iter", "range", "names"],
+    "INLINE": ['iter(mode="table_inline")', "names", "as_str", "from_str"],
+    "RANGE": ['iter(mode="range")', "range", "MIN", "MAX"],
+    "AUTO_NORANGE": ["iter", "as_str", "FromStr"],
+}
+
+SPECIAL_NAMES = ["", "two words", "q\"uote", "back\\slash", "{}", "{0}", "naïve-ü", "日本", "tab\there", "A", "\\n", "'", "}}{{"]
+
+
+def patterns(repr_):
+    """named discriminant lists for repr_ (ascending)"""
+    lo, hi = dom_min(repr_), dom_max(repr_)
+    tlo, thi = rmin(repr_), rmax(repr_)
+    signed = REPRS[repr_][1]
+    bits = REPRS[repr_][0]
+    safe_lo = lo if lo != -(1 << 63) else lo + 1   # i64::MIN spelled as a literal is finding F3 (C11 corpus)
+    P = {}
+    P["g_small"] = [0, 1, 2, 3]
+    P["single"] = [7]
+    P["g_hi"] = [hi - 3, hi - 2, hi - 1, hi]
+    P["h_mixed"] = [0, 1, 2, 9, 10, 20, hi - 1, hi]
+    P["h_sparse"] = [1, 3, 5, 7, 11]
+    if signed:
+        P["g_cross"] = [-3, -2, -1, 0, 1, 2]
+        P["g_lo"] = [safe_lo, safe_lo + 1, safe_lo + 2]
+        P["h_neg_later"] = [-10, -5, -4, 3]                      # negative start in a later run (F1)
+        P["h_lo_start"] = [safe_lo, safe_lo + 1, 5, hi]          # run at type/domain minimum (F6), run at maximum
+        P["h_allneg"] = [-100, -99, -50, -3, -2, -1]
+    else:
+        P["h_lo_start"] = [0, 1, 5, hi]
+    if bits == 8:
+        P["g_full"] = list(range(tlo, thi + 1))                   # all 256 values
+        P["h_full_but_one"] = [x for x in range(tlo, thi + 1) if x != (5 if not signed else -5)]
+        P["h_every_other"] = list(range(tlo, thi + 1, 2))
+    else:
+        base = -150 if signed else 10
+        P["h_300"] = [base + i + (i // 7) * 2 for i in range(300)]
+        P["g_300"] = [base + i for i in range(300)]
+    return P
+
+
+def names_for(n, style, rng):
+    if style == "plain":
+        return None
+    ren = {}
+    if style == "special":
+        for i in range(min(n, len(SPECIAL_NAMES))):
+            ren[(i * 3) % n] = SPECIAL_NAMES[i]
+        # keep names unique: drop clashes with identifiers
+    elif style == "dups":
+        ren[0] = "same"
+        if n > 2:
+            ren[n - 1] = "same"
+        if n > 3:
+            ren[1] = ident_for(2)      # renamed to the identifier of another variant
+    return ren
+
+
+def make_instance(tag, repr_, pname, discs, cfgname, order="sorted", style="plain", rng=None, split=False, implicit_ok=True):
+    rng = rng or random.Random(5)
+    ren = names_for(len(discs), style, rng)
+    vs = mk_variants(discs, order=order, renames=ren, rng=rng, implicit_ok=implicit_ok)
+    mod = "i_%s_%s_%s_%s" % (repr_, pname, cfgname.lower(), tag)
+    return EnumSpec(mod, repr_, vs, list(CFG[cfgname]), ident="En", tags={"I", pname, cfgname, order, style}, split=split)
+
+
+def instance_corpus(tier="quick", seed=1, reprs=None):
+    rng = random.Random(seed)
+    out = []
+    reprs = list(reprs or REPRS)
+    for r in reprs:
+        P = patterns(r)
+        for pname, discs in P.items():
+            gapless = all(b - a == 1 for a, b in zip(discs, discs[1:]))
+            big = len(discs) > 64
+            cfgs = ["ALL_TABLE", "ALL_MATCH", "ALL_AUTO"]
+            if gapless:
+                cfgs.append("RANGE")
+            if not big:
+                cfgs.append("INLINE")
+            cfgs.append("AUTO_NORANGE")
+            if tier == "quick":
+                # every (repr, pattern) gets the table configuration; the other configurations rotate
+                pick = ["ALL_TABLE", cfgs[1 + (hash((r, pname)) % (len(cfgs) - 1))]]
+                if pname in ("h_neg_later", "h_lo_start", "g_full", "h_300"):
+                    pick = cfgs
+            else:
+                pick = cfgs
+            for ci, c in enumerate(pick):
+                order = ["sorted", "shuffled", "reversed"][(ci + len(pname)) % 3]
+                style = ["plain", "special", "dups"][(ci + len(discs)) % 3]
+                out.append(make_instance("%d" % ci, r, pname, discs, c, order=order, style=style, rng=random.Random(rng.random())))
+    # seeded random enums
+    nrand = 12 if tier == "quick" else 120
+    for k in range(nrand):
+        r = rng.choice(reprs)
+        lo, hi = dom_min(r), dom_max(r)
+        if lo == -(1 << 63):
+            lo += 1
+        nruns = rng.choice([1, 1, 2, 3, 5])
+        discs = set()
+        anchors = [lo, hi, 0, -1 if lo < 0 else 1, rng.randint(lo, hi)]
+        for _ in range(nruns):
+            a = rng.choice(anchors + [rng.randint(max(lo, -1000), min(hi, 1000))])
+            ln = rng.randint(1, 6)
+            for x in range(a, a + ln):
+                if lo <= x <= hi:
+                    discs.add(x)
+            for x in range(a - ln, a):
+                if lo <= x <= hi and rng.random() < 0.3:
+                    discs.add(x)
+        discs = sorted(discs)
+        gapless = all(b - a == 1 for a, b in zip(discs, discs[1:]))
+        c = rng.choice(["ALL_TABLE", "ALL_MATCH", "ALL_AUTO"] + (["RANGE"] if gapless else []) + ["INLINE"])
+        out.append(make_instance("r%d" % k, r, "rand", discs, c, order=rng.choice(["sorted", "shuffled", "reversed"]),
+                                 style=rng.choice(["plain", "special", "dups"]), rng=random.Random(rng.random())))
+    if tier != "quick":
+        for r in ("u16", "i32", "u64"):
+            base = 0 if r.startswith("u") else -500
+            discs = [base + i + (i // 50) * 3 for i in range(1000)]
+            out.append(make_instance("k", r, "h_1000", discs, "ALL_TABLE", order="shuffled", style="plain", rng=random.Random(3)))
+            out.append(make_instance("k", r, "g_1000", [base + i for i in range(1000)], "ALL_AUTO", order="reversed", style="plain", rng=random.Random(4)))
     return out
